@@ -248,8 +248,9 @@ Fixpoint frames_loop (fuel : nat) (gunsync : bool) (tbl22 tbl : list frame_desc)
       else
         let size := bpi_decode bits (zslice 4 8 header) in
         let flags := be_decode (zslice 8 10 header) in
-        let framedata := zslice 10 (10 + size) data in
-        let next := frames_loop f gunsync tbl22 tbl bits (zdrop (10 + size) data) in
+        let take := Z.min size (zlen data) in             (* Python slices clamp to the data *)
+        let framedata := zslice 10 (10 + take) data in
+        let next := frames_loop f gunsync tbl22 tbl bits (zdrop (10 + take) data) in
         if size =? 0 then next
         else if negb (forallb ascii_cp name) then next
         else
@@ -277,8 +278,9 @@ Fixpoint frames_loop22 (fuel : nat) (tbl22 : list frame_desc) (data : list Z) : 
       if all_zero name then Ok (mkParsed [] [] data)
       else
         let size := be_decode (zslice 3 6 header) in
-        let framedata := zslice 6 (6 + size) data in
-        let next := frames_loop22 f tbl22 (zdrop (6 + size) data) in
+        let take := Z.min size (zlen data) in
+        let framedata := zslice 6 (6 + take) data in
+        let next := frames_loop22 f tbl22 (zdrop (6 + take) data) in
         if size =? 0 then next
         else if negb (forallb ascii_cp name) then next
         else match frame_lookup tbl22 name with
